@@ -25,6 +25,7 @@ THEOREMS = [P + n for n in (
     'result_fromDict_toDict',
     'roundtrip', 'roundtrip_hdf5', 'roundtrip_pkl', 'result_tests_equal',
     'model_predictions_equal', 'roundtrip_after_history',
+    'index_lookup_order_free', 'index_lookup_numeric',
     'save_pure', 'no_overwrite_guard', 'overwrite_exact', 'fresh_save_exact',
     'pinned_reload_changes_variance')]
 RULE = ('one PRNG; a case = 1-3 objects of the five kinds (sizes 1-6, values incl. NaN/inf/-0, '
@@ -38,8 +39,10 @@ BRANCHES = ['kind:rdms', 'kind:dataset', 'kind:temporal', 'kind:model', 'kind:re
             'save:fresh', 'save:existing+overwrite', 'save:existing-overwrite',
             'guard:hdf5-path-exists', 'load:autodetect', 'load:error',
             'desc:unicode-array', 'desc:unicode-str', 'desc:matrix', 'desc:none', 'desc:tuple',
+            'desc:hlist', 'desc:hlist>=11',
             'desc:nested', 'value:nan', 'value:inf', 'measure:absent', 'history',
             'result:evaluator', 'result:ctor', 'result:postset', 'result:variances-none',
+            'result:models>=11',
             'model:Model', 'model:ModelFixed', 'model:ModelSelect', 'model:ModelWeighted',
             'model:ModelInterpolate']
 ASSUMPTIONS = [
@@ -47,6 +50,10 @@ ASSUMPTIONS = [
     'NULs in fixed-width arrays); integers fit int64; lists are rectangular and do not mix '
     'numbers with strings (numpy would stringify the numbers)',
     'reading back an open handle means reading the file from its start (the adaptor seeks to 0)',
+    'an RDMs object has at least one condition (with none left, the vector form is the same as for one '
+    'condition and the constructor cannot recover n_cond = 0)',
+    'ragged / mixed lists occur as rdm_/pattern_descriptors of RDMs (where dict_to_list is wired) and do '
+    'not mix bare numbers with strings',
     'a model built on an RDMs object holds at least one RDM (Model.to_dict tests the truth value of '
     'rdm_obj, i.e. len(rdms) > 0; an empty model is saved without its RDMs)',
 ]
@@ -76,8 +83,38 @@ def _s(rng, uni):
     return rng.choice(UNI) if rng.random() < uni else rng.choice(ASCII)
 
 
-def _elem_desc(rng, n, uni):
+def _hlist(rng, n, uni):
+    """a ragged / mixed list of length n (what `TestRDMLists` in the repo's suite builds):
+    strings, None, numbers, arrays and lists of different lengths; never array-convertible"""
+    # never bare numbers *and* strings in one list: after a selection numpy could stringify
+    kinds = rng.choice([['str', 'none', 'nd', 'list'], ['int', 'float', 'none', 'nd', 'list']])
+
+    def elem():
+        k = rng.choice(kinds)
+        if k == 'str':
+            return {'py': 'str', 'v': _s(rng, uni)}
+        if k == 'none':
+            return {'py': 'none'}
+        if k == 'int':
+            return {'py': 'int', 'v': rng.randint(0, 9)}
+        if k == 'float':
+            return {'py': 'float', 'v': _fl(rng)}
+        m = rng.randint(0, 3)
+        if k == 'nd':
+            return {'py': 'nd', 'dtype': 'i', 'shape': [m], 'v': list(range(m))}
+        return {'py': 'list', 'v': [{'py': 'int', 'v': rng.randint(0, 9)} for _ in range(m)]}
+    v = [elem() for _ in range(n)]
+    v[rng.randrange(n)] = {'py': 'none'}                  # guarantees an object array / ragged
+    v[rng.randrange(n)] = {'py': 'nd', 'dtype': 'i', 'shape': [2], 'v': [7, 8]}
+    if all(e['py'] in ('nd', 'list') for e in v):
+        v[0] = {'py': 'none'}
+    return {'py': 'list', 'v': v, 'h': True}
+
+
+def _elem_desc(rng, n, uni, hlist=0.0):
     """a per-element descriptor value of length n"""
+    if n >= 2 and rng.random() < hlist:
+        return _hlist(rng, n, uni)
     t = rng.choice(['list_int', 'list_str', 'list_float', 'nd_int', 'nd_str', 'nd_float', 'nd_2d',
                     'list_bool'])
     if t == 'list_int':
@@ -142,8 +179,9 @@ def _descs(rng, gen, lo=0, hi=3):
     return [[k, gen()] for k in rng.sample(KEYS, rng.randint(lo, hi))]
 
 
-def gen_rdms(rng, uni, n_rdm=None, n_cond=None, history=True, min_rdm=1):
-    n_rdm = n_rdm or rng.randint(min_rdm, 4)
+def gen_rdms(rng, uni, n_rdm=None, n_cond=None, history=True, min_rdm=1, long=None):
+    long = (rng.random() < 0.12 and n_rdm is None) if long is None else long
+    n_rdm = n_rdm or (rng.randint(11, 13) if long else rng.randint(min_rdm, 4))
     n_cond = n_cond or rng.randint(2, 5)
     npair = n_cond * (n_cond - 1) // 2
     sp = 0.12 if rng.random() < 0.4 else 0.0
@@ -151,8 +189,10 @@ def gen_rdms(rng, uni, n_rdm=None, n_cond=None, history=True, min_rdm=1):
             'dis': [[_fl(rng, sp) for _ in range(npair)] for _ in range(n_rdm)],
             'measure': rng.choice([None, None, 'euclidean', 'crossnobis', _s(rng, uni)]),
             'descriptors': _descs(rng, lambda: _obj_desc(rng, uni)),
-            'rdm_descriptors': _descs(rng, lambda: _elem_desc(rng, n_rdm, uni), 0, 2),
-            'pattern_descriptors': _descs(rng, lambda: _elem_desc(rng, n_cond, uni), 0, 2)}
+            'rdm_descriptors': _descs(rng, lambda: _elem_desc(rng, n_rdm, uni, 0.2), 0, 2),
+            'pattern_descriptors': _descs(rng, lambda: _elem_desc(rng, n_cond, uni, 0.15), 0, 2)}
+    if long:       # an index-keyed group with more than ten members ('10' sorts before '2')
+        spec['rdm_descriptors'].append(['hl', _hlist(rng, n_rdm, uni)])
     if history and rng.random() < 0.5:
         h = []
         for _ in range(rng.randint(1, 3)):
@@ -232,16 +272,24 @@ def gen_model(rng, uni, n_cond=None, mtype=None):
     return {'kind': 'model', 'type': mtype, 'name': name, 'rdm': src}
 
 
-def gen_result(rng, uni):
-    n_model = rng.randint(1, 3)
+def gen_result(rng, uni, many=None):
+    many = rng.random() < 0.2 if many is None else many
+    n_model = rng.randint(11, 13) if many else rng.randint(1, 3)
     n_cond = rng.randint(3, 5)
-    models = [gen_model(rng, uni, n_cond=n_cond,
-                        mtype=rng.choice(['ModelFixed', 'ModelFixed', 'ModelWeighted', 'ModelSelect']))
-              for _ in range(n_model)]
+    if many:
+        # more than ten models: HDF5 lists 'model_10' before 'model_2'; cheap distinct models
+        n_cond = 3
+        models = [{'kind': 'model', 'type': 'ModelFixed', 'name': f'm{i}' if rng.random() < 0.8 else _s(rng, uni) or 'm',
+                   'rdm': {'vec': [i + 1.0, rng.randint(1, 40) / 8, rng.randint(1, 40) / 8], 'rows': 1}}
+                  for i in range(n_model)]
+    else:
+        models = [gen_model(rng, uni, n_cond=n_cond,
+                            mtype=rng.choice(['ModelFixed', 'ModelFixed', 'ModelWeighted', 'ModelSelect']))
+                  for _ in range(n_model)]
     for m in models:   # histories inside model RDMs may change n_cond: keep them plain
         if isinstance(m.get('rdm'), dict) and m['rdm'].get('kind') == 'rdms':
             m['rdm'].pop('history', None)
-    if rng.random() < 0.45:
+    if rng.random() < (0.3 if many else 0.45):
         n_rdm = rng.randint(2, 6)
         data = gen_rdms(rng, 0.0, n_rdm=n_rdm, n_cond=n_cond, history=False)
         data['dis'] = [[rng.randint(1, 40) / 8 for _ in row] for row in data['dis']]
@@ -366,6 +414,12 @@ def generate(rng, tier):
                 {'do': 'load', 'kind': a['kind'], 'target': t, 'ft': ft},
                 {'do': 'save', 'obj': 1, 'target': t, 'ft': ft, 'overwrite': True},
                 {'do': 'load', 'kind': a['kind'], 'target': t, 'ft': ft}]}
+    # a Result with more than ten models through HDF5 (members come back alphabetically)
+    for ext, ft in (('h5', 'hdf5'), ('pkl', 'pkl')):
+        t = {'path': True, 'id': 0, 'ext': ext}
+        yield {'objs': [gen_result(rng, 0.0, many=True)], 'ops': [
+            {'do': 'save', 'obj': 0, 'target': t, 'ft': ft, 'overwrite': False},
+            {'do': 'load', 'kind': 'result', 'target': t, 'ft': None}]}
     for _ in range(n):
         yield gen_case(rng)
 
@@ -465,8 +519,20 @@ def _same(a, b, path=''):
         return None if a is None and b is None else f'{path}: {L.short(a)} != {L.short(b)}'
     try:
         x, y = np.asarray(a), np.asarray(b)
+        ragged = (x.dtype.kind == 'O' or y.dtype.kind == 'O') and \
+            isinstance(a, (list, tuple)) and isinstance(b, (list, tuple))
     except ValueError:
-        return f'{path}: not array-like'
+        ragged = True
+    if ragged:           # ragged / mixed lists: entry by entry, in order
+        if not (isinstance(a, (list, tuple)) and isinstance(b, (list, tuple))):
+            return f'{path}: {type(a).__name__} vs {type(b).__name__}'
+        if len(a) != len(b):
+            return f'{path}: length {len(a)} != {len(b)}'
+        for i, (p, q) in enumerate(zip(a, b)):
+            d = _same(p, q, f'{path}[{i}]')
+            if d:
+                return d
+        return None
     if x.shape != y.shape:
         return f'{path}: shape {x.shape} != {y.shape}'
     sx, sy = x.dtype.kind in 'US', y.dtype.kind in 'US'
@@ -515,8 +581,13 @@ def _fail(case, i, symptom, what, observed, expected, op, spec):
     # an open handle that already held something was saved to again with overwrite=True
     handle_ov = op is not None and not op['target']['path'] and any(
         o['overwrite'] for o in same[1:])
+    f['has_hlist'] = spec is not None and _has(spec, lambda d: d.get('py') == 'list' and d.get('h'))
     if symptom == 'save-error:UnicodeEncodeError':
         f['defect'] = 'unicode-array'
+    elif symptom in ('save-error:ValueError', 'save-error:TypeError') and f['has_hlist'] \
+            and f.get('ft') == 'hdf5' and ('inhomogeneous' in str(observed) or 'sequence' in str(observed)
+                                           or 'must be specified' in str(observed)):
+        f['defect'] = 'ragged-list'
     elif symptom in ('result-variances', 'behaviour') and spec is not None and spec['kind'] == 'result':
         f['defect'] = 'result-variances'
     elif handle_ov and symptom.split(':')[0] in ('save-error', 'load-error', 'field', 'class'):
@@ -620,6 +691,8 @@ def features(case, impl):
             br.add('measure:absent')
         if k == 'result':
             br.add('result:evaluator' if s['how'] == 'eval' else 'result:ctor')
+            if len(s['models']) >= 11:
+                br.add('result:models>=11')
             if s.get('post') or s.get('evaluator') in ('fixed', 'bootstrap_rdm', 'bootstrap_pattern'):
                 br.add('result:postset')
             if s['how'] == 'ctor' and s.get('variances') is None:
@@ -641,6 +714,10 @@ def features(case, impl):
                 br.add('desc:none')
             if py == 'tuple':
                 br.add('desc:tuple')
+            if py == 'list' and d.get('h'):
+                br.add('desc:hlist')
+                if len(d['v']) >= 11:
+                    br.add('desc:hlist>=11')
             if py == 'dict':
                 br.add('desc:nested')
             if py == 'float' and d['v'] == 'nan':
